@@ -18,11 +18,11 @@ AX = {
     'P5': 'P5 container-valued fields are owned by their object (no aliasing of list/dict objects across owners)',
 }
 
-SERIAL_ONLY = 'parallel_handlers=True buses: the task-per-handler branch of _execute_handlers is outside the translator (tasks stored in a dict); the contracts require a serial bus, the parallel branch is NOT verified'
+SERIAL_ONLY = ('parallel_handlers=True buses: the task-per-handler branch of _execute_handlers is verified too; A2/A2b for its tasks: a spawned handler task runs its coroutine once in the copied '
+               'context, `await task` resumes only when it is done, gather() without return_exceptions resumes at the first failure, and nobody cancels a handler task except through its awaiter')
 HANDLER_MODEL = 'handlers are arbitrary user code: may call any public API, suspend, return anything, raise any Exception or CancelledError'
 
 AWAIT_TB = [AX[k] for k in ('A1', 'A5', 'A6', 'A7', 'A8', 'A10', 'X1', 'X2')] + [SERIAL_ONLY,
-    'every bus is a serial bus (pre-condition of the awaiting coroutine, since it may process any bus\'s queue)',
     'A5\': with every task balancing its task_done() calls, a queue\'s unfinished count is never below its size',
     'rely while suspended: completion signals are never cleared or replaced, queues are never replaced, terminal results are frozen']
 
